@@ -305,6 +305,22 @@ public:
 		return *this;
 	}
 
+	/**
+	Reads `x.length()` items into the array (set its length beforehand): the inverse of `<<` for arrays
+	*/
+	template<class T>
+	Socket& operator>>(Array<T>& x)
+	{
+		if (endian() == ASL_OTHER_ENDIAN || !IsArithmetic<T>::value)
+		{
+			for (int i = 0; i < x.length(); i++)
+				*this >> x[i];
+		}
+		else
+			read(&x[0], x.length() * (int)sizeof(T));
+		return *this;
+	}
+
 	template<class T>
 	Socket& operator<<(const Array<T>& x)
 	{
